@@ -144,6 +144,11 @@ class Interp(object):
                     k = tuple(k) if isinstance(k, list) else k
                     if not (isinstance(k, tuple) and k and k[0] == "sym"):
                         return base.get(k, self.ev(e.args[1]) if len(e.args) == 2 else None)
+            if d in ("any", "all") and len(e.args) == 1 and not e.keywords:
+                v = self.ev(e.args[0])
+                if isinstance(v, list):
+                    truths = [self.truth(x) for x in v]
+                    return any(truths) if d == "any" else all(truths)
             if d in ("tuple", "list") and len(e.args) == 1 and not e.keywords:
                 v = self.ev(e.args[0])
                 if isinstance(v, list):
